@@ -456,6 +456,8 @@ UBodyStart(w, tag, tok) ==
 \* the start function returns v (kind 0) or calls the exit routine with v (kind 1)
 \* keys whose deletion is in flight (called, not yet returned): a thread terminating meanwhile may or may not
 \* run their destructors (either order of the two operations is a legal linearisation)
+\* a thread between the end of its body and the locking of its record (possibly inside a destructor that yields)
+Finning(d) == th[d].pc.k = "fin0" \/ \E i \in DOMAIN th[d].rs : th[d].rs[i].k = "fin0"
 Deleting == {th[u].pc.x : u \in {x \in D : th[x].pc.k \in {"kd00", "kd0", "kd1"}}}
 Owed(t) == {<<gh.kdt[p[1]], p[2]>> : p \in {q \in gh.kval[t] : q[1] \in gh.klive \ Deleting /\ gh.kdt[q[1]] # 0}}
 Opt(t)  == {<<gh.kdt[p[1]], p[2]>> : p \in {q \in gh.kval[t] : q[1] \in gh.klive \cap Deleting /\ gh.kdt[q[1]] # 0}}
@@ -1145,8 +1147,8 @@ UKeyDeleteCall(w, tag, k) ==
         /\ th' = SetPc(t, IF KeyOK(k) THEN P("kd00", k, 0, 0) ELSE P("kd9", k, 1, 0))
   \* destructor calls for k still owed by threads that are terminating right now become optional
   /\ gh' = IF KeyOK(k)
-           THEN [gh EXCEPT !.kpend = [d \in D |-> IF th[d].pc.k = "fin0" THEN gh.kpend[d] \ PairsOf(d, k) ELSE gh.kpend[d]],
-                           !.kopt  = [d \in D |-> IF th[d].pc.k = "fin0" THEN gh.kopt[d] \cup (gh.kpend[d] \cap PairsOf(d, k)) ELSE gh.kopt[d]]]
+           THEN [gh EXCEPT !.kpend = [d \in D |-> IF Finning(d) THEN gh.kpend[d] \ PairsOf(d, k) ELSE gh.kpend[d]],
+                           !.kopt  = [d \in D |-> IF Finning(d) THEN gh.kopt[d] \cup (gh.kpend[d] \cap PairsOf(d, k)) ELSE gh.kopt[d]]]
            ELSE gh
   /\ UNCHANGED <<cur, got, cb, runq, ledger, tg, bad, mx, sq, ob>>
 KdLd(w, k, h) ==
@@ -1183,6 +1185,16 @@ UDtor(w, tag, dt, v) ==
         /\ bad' = IF <<dt, v>> \notin (gh.kpend[t] \cup gh.kopt[t]) /\ ~(v = 0 /\ \E k \in gh.klive : gh.kdt[k] = dt)   \* (a call with NULL for a live key is tolerated)
                   THEN Fail("C11: destructor called with a value it is not owed (wrong value, no destructor, deleted key, NULL, or twice)") ELSE bad
   /\ UNCHANGED <<cur, got, cb, runq, th, ledger, tg, mx, sq, ob>>
+
+\* a destructor is user code: it may yield or block, and the terminating thread may then continue on another worker.
+\* The part of a destructor that does so is bracketed by two events; in between the thread is an ordinary user thread
+\* whose return stack holds the termination stage it comes back to.
+UDtorIn(w, tag) ==
+  /\ \E t \in D : At(w, t, "fin0") /\ th[t].tag = tag /\ th' = CallPc(t, User, th[t].pc)
+  /\ UNCHANGED <<cur, got, cb, runq, ledger, tg, bad, sv>>
+UDtorOut(w, tag) ==
+  /\ \E t \in D : At(w, t, "user") /\ th[t].tag = tag /\ th[t].rs # <<>> /\ Head(th[t].rs).k = "fin0" /\ th' = RetPc(t)
+  /\ UNCHANGED <<cur, got, cb, runq, ledger, tg, bad, sv>>
 
 \* ------------------------------------------------------------ cancellation
 UCancelCall(w, tag, ctag) ==
